@@ -1,4 +1,5 @@
 import DeriveExModel.Basic
+import DeriveExModel.Spec.Bounds
 /-
 C13 — the places where the expander *looks at* a user-chosen name, and why a consistent renaming cannot change
 what it decides there.
@@ -366,5 +367,96 @@ example : swapRen.f "T" = "U" ∧ swapRen.f "r#T" = "r#U" ∧ swapRen.f "Vec" = 
 example : (Ty.app "Vec" [.simple "T"]).rename swapRen = Ty.app "Vec" [.simple "U"] := by
   simp [Ty.app, Ty.simple, Ty.rename, Seg.renameL, Seg.rename, GArg.renameL, GArg.rename]
   decide
+
+end DX
+
+/-! ### the documented where-clause commutes with renaming
+
+`Plan.whereClause` (Spec/Bounds.lean) is the where-clause the documentation prescribes, and every builder is proved to
+produce it (Props/C04, C04Enum).  Its only decision that looks at a name is "does the field type mention a parameter":
+so the where-clause of the renamed plan over the renamed generics is the renamed where-clause — which levels are reached,
+which fields draw a default bound, in which order, is the same whatever the type, its parameters and its fields are called. -/
+namespace DX
+
+def Bounds.rename (ρ : Ren) (b : Bounds) : Bounds :=
+  { ty := b.ty.map (Ty.rename ρ), pred := b.pred.map (WPred.rename ρ), dflt := b.dflt }
+def Contrib.rename (ρ : Ren) (c : Contrib) : Contrib :=
+  { tys := c.tys.map (Ty.rename ρ), preds := c.preds.map (WPred.rename ρ) }
+def WCB.rename (ρ : Ren) (w : WCB) : WCB :=
+  { types := w.types.map (Ty.rename ρ), preds := w.preds.map (WPred.rename ρ), gps := w.gps.map ρ.f }
+def FieldPlan.rename (ρ : Ren) (f : FieldPlan) : FieldPlan :=
+  { levels := f.levels.map (Bounds.rename ρ), ty := f.ty.rename ρ, used := f.used }
+def VariantPlan.rename (ρ : Ren) (v : VariantPlan) : VariantPlan :=
+  { levels := v.levels.map (Bounds.rename ρ), fields := v.fields.map (FieldPlan.rename ρ) }
+def Plan.rename (ρ : Ren) (p : Plan) : Plan :=
+  { typeLevels := p.typeLevels.map (Bounds.rename ρ), variants := p.variants.map (VariantPlan.rename ρ) }
+
+theorem Contrib.rename_append (ρ : Ren) (a b : Contrib) : (a ++ b).rename ρ = a.rename ρ ++ b.rename ρ := by
+  show Contrib.rename ρ (Contrib.append a b) = Contrib.append (a.rename ρ) (b.rename ρ)
+  simp [Contrib.rename, Contrib.append]
+
+theorem Contrib.rename_empty (ρ : Ren) : Contrib.empty.rename ρ = Contrib.empty := rfl
+
+theorem Contrib.rename_concat (ρ : Ren) (cs : List Contrib) :
+    (Contrib.concat cs).rename ρ = Contrib.concat (cs.map (Contrib.rename ρ)) := by
+  induction cs with
+  | nil => rfl
+  | cons c cs ih =>
+    simp only [Contrib.concat, List.foldr_cons, List.map_cons] at ih ⊢
+    rw [Contrib.rename_append, ih]
+
+theorem reached_rename (ρ : Ren) (ls : List Bounds) :
+    reached (ls.map (Bounds.rename ρ)) = (reached ls).map (Bounds.rename ρ) := by
+  induction ls with
+  | nil => rfl
+  | cons b bs ih =>
+    simp only [List.map_cons, reached, ih]
+    cases hb : b.dflt <;> simp [Bounds.rename, hb]
+
+theorem continues_rename (ρ : Ren) (ls : List Bounds) : continues (ls.map (Bounds.rename ρ)) = continues ls := by
+  simp [continues, List.all_map, Function.comp_def, Bounds.rename]
+
+theorem levelsContrib_rename (ρ : Ren) (ls : List Bounds) :
+    levelsContrib (ls.map (Bounds.rename ρ)) = (levelsContrib ls).rename ρ := by
+  simp [levelsContrib, reached_rename, Contrib.rename, List.flatMap_map, List.map_flatMap, Bounds.rename]
+
+theorem FieldPlan.contrib_rename (ρ : Ren) (gps : List String) (f : FieldPlan) :
+    (f.rename ρ).contrib (gps.map ρ.f) = (f.contrib gps).rename ρ := by
+  unfold FieldPlan.contrib
+  rw [Contrib.rename_append]
+  simp only [FieldPlan.rename, levelsContrib_rename, continues_rename, mentions_rename]
+  congr 1
+  split <;> simp [Contrib.rename, Contrib.empty]
+
+theorem VariantPlan.contrib_rename (ρ : Ren) (gps : List String) (v : VariantPlan) :
+    (v.rename ρ).contrib (gps.map ρ.f) = (v.contrib gps).rename ρ := by
+  unfold VariantPlan.contrib
+  rw [Contrib.rename_append]
+  simp only [VariantPlan.rename, levelsContrib_rename, continues_rename]
+  congr 1
+  split
+  · rw [Contrib.rename_concat]
+    simp [List.map_map, Function.comp_def, FieldPlan.contrib_rename]
+  · rfl
+
+theorem Plan.contrib_rename (ρ : Ren) (gps : List String) (p : Plan) :
+    (p.rename ρ).contrib (gps.map ρ.f) = (p.contrib gps).rename ρ := by
+  unfold Plan.contrib
+  rw [Contrib.rename_append]
+  simp only [Plan.rename, levelsContrib_rename, continues_rename]
+  congr 1
+  split
+  · rw [Contrib.rename_concat]
+    simp [List.map_map, Function.comp_def, VariantPlan.contrib_rename]
+  · rfl
+
+/-- **the documented where-clause of the renamed item is the renamed where-clause** -/
+theorem whereClause_rename (ρ : Ren) (g : Generics) (p : Plan) :
+    (p.rename ρ).whereClause (g.rename ρ) = (p.whereClause g).rename ρ := by
+  unfold Plan.whereClause
+  rw [paramSet_rename, Plan.contrib_rename]
+  have h := paramSet_rename ρ g
+  simp only [WCB.new, WCB.addC, WCB.rename, Contrib.rename, h, List.map_append]
+  simp [Generics.rename]
 
 end DX
